@@ -136,13 +136,15 @@ def q18(ra: int, rb: int, enabled: bool, step: int, ea: bool, eb: bool, reject: 
 HSTEPS = ["run+drain", "dry-run", "status", "touch", "clean", "edit-A", "edit-B", "toggle", "run-rejecting-first"]
 
 
-def _q18h(s0, s1, s2, start_enabled):
+def _q18h(s0, s1, s2, s3, start_enabled):
     sh = q.SHARD
     n = sh["len"]
-    steps = [s0, s1, s2][:n]
-    for s in [s0, s1, s2][n:]:
+    steps = [s0, s1, s2, s3][:n]
+    for s in [s0, s1, s2, s3][n:]:
         if s != 0:
             return q.SKIP
+    if "s1" in sh and s1 != sh["s1"]:
+        return q.SKIP
     for s in steps:
         if not q.in_range(s, len(HSTEPS)):
             return q.SKIP
@@ -236,11 +238,11 @@ def _q18h(s0, s1, s2, start_enabled):
         w.uninstall()
 
 
-def q18h(s0: int, s1: int, s2: int, start_enabled: bool) -> str:
+def q18h(s0: int, s1: int, s2: int, s3: int, start_enabled: bool) -> str:
     """
     post: _ == ""
     """
-    return q.run(_q18h, (s0, s1, s2, start_enabled))
+    return q.run(_q18h, (s0, s1, s2, s3, start_enabled))
 
 
 QUERIES = [
@@ -248,7 +250,7 @@ QUERIES = [
      "bound": "one step from an arbitrary state: record of A and of B each absent / current / outdated (+ a record of a removed target, or no hash file at all), hashing on/off, outputs present or not; "
               "step in {run (with the 1st or 2nd sbatch rejected, or none), run --dry-run, status, touch, clean --all -f}; chain of 2 on Slurm"},
     {"name": "Q18h", "fn": q18h,
-     "shards": {"quick": [{"len": 2, "s0": k} for k in range(len(HSTEPS))], "thorough": [{"len": 3, "s0": k} for k in range(len(HSTEPS))]},
+     "shards": {"quick": [{"len": 2, "s0": k} for k in range(len(HSTEPS))], "thorough": [{"len": 3, "s0": k} for k in range(len(HSTEPS))] + [{"len": 4, "s0": a, "s1": b} for a in (0, 3, 5, 7, 8) for b in range(len(HSTEPS))]},
      "timeout": {"quick": 1500, "thorough": 3600},
-     "bound": "histories of 2 (quick) / 3 (thorough) steps over %s from a fresh project with hashing initially on or off; after every step the record file equals the reference model, and status follows the records" % (HSTEPS,)},
+     "bound": "histories of 2 (quick) / 3 and - for 5 first steps - 4 (thorough) steps over %s from a fresh project with hashing initially on or off; after every step the record file equals the reference model, and status follows the records" % (HSTEPS,)},
 ]
